@@ -524,6 +524,55 @@ func checkFresh(c *Check, p *Program, key string, r *ssa.Return, v ssa.Value, pr
 	c.OK("C19.produce-fresh", key, p.InstrPos(r), "reflect.New(<element type of the prototype>).Interface(): a new zero value of exactly the prototype's element type")
 }
 
+// globalPartUse judges the uses of the address of a field or element of a
+// package-level variable: loads of plain values anywhere, stores during
+// package initialisation only, sync/atomic operations (a word every access
+// to which is atomic is no state that concurrent use could corrupt).
+func globalPartUse(addr ssa.Value, inInit bool, fname string, depth int) string {
+	if depth > 6 {
+		return "address used through a long selector chain in " + fname
+	}
+	refs := addr.Referrers()
+	if refs == nil {
+		return ""
+	}
+	for _, r := range *refs {
+		switch x := r.(type) {
+		case *ssa.DebugRef:
+		case *ssa.UnOp:
+			if x.Op != token.MUL {
+				return "address used by " + x.String() + " in " + fname
+			}
+			switch x.Type().Underlying().(type) {
+			case *types.Slice, *types.Map, *types.Pointer, *types.Chan, *types.Interface, *types.Signature:
+				return "a reference held in the variable is loaded in " + fname + " (what it refers to is shared)"
+			}
+		case *ssa.Store:
+			if x.Addr != addr {
+				return "address stored by " + fname
+			}
+			if !inInit {
+				return "a part of it is assigned in " + fname
+			}
+		case *ssa.FieldAddr:
+			if b := globalPartUse(x, inInit, fname, depth+1); b != "" {
+				return b
+			}
+		case *ssa.IndexAddr:
+			if b := globalPartUse(x, inInit, fname, depth+1); b != "" {
+				return b
+			}
+		case ssa.CallInstruction:
+			if a := x.Common().Args; x.Common().IsInvoke() || !isSyncAtomic(calleeObj(x)) || len(a) == 0 || a[0] != addr {
+				return fmt.Sprintf("address escapes through %T in %s", r, fname)
+			}
+		default:
+			return fmt.Sprintf("address escapes through %T in %s", r, fname)
+		}
+	}
+	return ""
+}
+
 // checkDptGlobalsReadOnly: no store to any package-level variable of dpt
 // outside package initialisation; no MapUpdate on a global map; the address
 // of a global never escapes; methods of registered types (and everything they
@@ -603,6 +652,14 @@ func checkDptGlobalsReadOnly(c *Check, p *Program, registered map[*types.Named]s
 					bad = "address stored by " + FuncName(fn)
 				}
 			case *ssa.DebugRef:
+			case *ssa.FieldAddr, *ssa.IndexAddr:
+				// a field or element of the variable itself
+				bad = globalPartUse(x.(ssa.Value), inInit, FuncName(fn), 0)
+			case ssa.CallInstruction:
+				// a typed atomic (atomic.Uint64 ...) used through its methods
+				if a := x.Common().Args; x.Common().IsInvoke() || !isSyncAtomic(calleeObj(x)) || len(a) == 0 || a[0] != ssa.Value(g) {
+					bad = fmt.Sprintf("address escapes through %T in %s", u, FuncName(fn))
+				}
 			default:
 				bad = fmt.Sprintf("address escapes through %T in %s", u, FuncName(fn))
 			}
